@@ -134,7 +134,7 @@ def view_of(backend, wd, keys):
     # the working directory with it - the viewer then opens the location like any later session would)
     os.makedirs(wd, exist_ok=True)
     r = subprocess.run([common.PY, '-m', 'harness.fs_worker', common.REPO, backend, wd, 'view', json.dumps({'keys': keys})],
-                       capture_output=True, text=True, env=worker_env(), cwd=wd, timeout=120)
+                       capture_output=True, text=True, env=worker_env(), cwd=wd, timeout=900)
     try:
         return json.loads(r.stdout.strip().splitlines()[-1])
     except Exception:
@@ -170,8 +170,8 @@ def run_op(backend, keys, init, op, wd, kill=None):
     except OSError:
         pass
     out = w.stdout.readline()
-    rc = w.wait(timeout=120)
-    s.wait(timeout=60)
+    rc = w.wait(timeout=900)
+    s.wait(timeout=300)
     for f in (w.stdin, w.stdout, w.stderr, s.stderr):
         try:
             f.close()
